@@ -231,3 +231,29 @@ theorem C19_same_when_valid (r : RenderReq)
     simp only [h, compileCheck_strict_ok_lax _ _ _ _ h]
 
 end ChamVerif
+
+namespace ChamVerif
+
+/-- **C19 (strict mode rejects)**: an expression that does not compile makes the strict compile pass fail with exactly
+that `ExpressionError` (class, message, token) -/
+theorem C19_strict_rejects (tc : TCfg) (f : Nat) (tok etok : Tok) (msg : String)
+    (h : compileTales tc 64 tok = .error (.template "ExpressionError" msg etok)) :
+    compileEN tc true (f + 1) (.value tok) = .error (.template "ExpressionError" msg etok) := by
+  simp [compileEN, laxFilter, h, bind, Except.bind]
+
+/-- … non-strict mode accepts it at compile time … -/
+theorem C19_lax_accepts (tc : TCfg) (f : Nat) (tok etok : Tok) (msg : String)
+    (h : compileTales tc 64 tok = .error (.template "ExpressionError" msg etok)) :
+    compileEN tc false (f + 1) (.value tok) = .ok () := by
+  simp [compileEN, laxFilter, h, bind, Except.bind, pure, Except.pure]
+
+/-- **C19 (deferred error)**: … and raises the same `ExpressionError`, with the token of the invalid expression
+recorded, exactly when the expression is evaluated — nothing is evaluated, logged or output before -/
+theorem C19_deferred_error (cfg : ECfg) (al : List (Str × Val)) (env : Env) (tok etok : Tok) (msg : String) (esc : Esc)
+    (d : Option Str) (x : XState)
+    (h : compileTales cfg.tc 64 tok = .error (.template "ExpressionError" msg etok)) :
+    evalValue cfg al env tok esc d x =
+      .raised { cls := "ExpressionError", msg := Str.ofString msg } { x with token := some (etok.pos, etok.str.length) } := by
+  simp [evalValue, compileAt, h, bind, xSetTokenRaw, xRaise]
+
+end ChamVerif
